@@ -25,7 +25,7 @@ ASSUMPTIONS = [
     "library-internal helper generators (WorkQueue.events, batches) need not be closed; only tasks and harness source iterators are checked",
 ]
 
-REQ_NAMES_QUICK = ["nested_stream_item_fails", "plain_bg1", "plain_bg2", "initial_async", "defer1", "defer_stream", "nested", "defer_list", "stream_agen", "defer_in_stream", "two_streams", "nonnull_deferred", "overlap"]
+REQ_NAMES_QUICK = ["stream_next_to_failing", "stream_next_to_failing_deferred", "stream_next_to_root_failure", "shared_stream_both_fail", "nested_stream_item_fails", "plain_bg1", "plain_bg2", "initial_async", "defer1", "defer_stream", "nested", "defer_list", "stream_agen", "defer_in_stream", "two_streams", "nonnull_deferred", "overlap"]
 STOPS = [("none", None), ("aclose", None), ("abort", None), ("abort", "exc"), ("abort", "value")]
 
 
@@ -196,6 +196,7 @@ SUB_SCENARIOS = [
     ("agen_async_resolver", "subscription { ev { id msg } }", 2, True),
     ("iter_aclose", "subscription { ev { id } }", 2, False),
     ("iter_plain", "subscription { ev { msg } }", 1, True),
+    ("iterable_fresh", "subscription { ev { id } }", 2, False),
 ]
 
 
@@ -239,6 +240,7 @@ def scenario_sub(c, idx, stop):
                     closes.append(("started", "src"))
                 await w.gate(f"src{i}", None, kind="src")
                 if i >= n:
+                    closes.append(("finished", "src"))
                     raise StopAsyncIteration
                 return {"ev": {"id": str(i), "msg": f"m{i}"}}
 
@@ -246,9 +248,17 @@ def scenario_sub(c, idx, stop):
             async def aclose(self):
                 closes.append(("closed", "src"))
 
+        class FreshIterable:
+            """An async iterable that is not its own iterator: only the iterator it hands out can be closed."""
+
+            def __aiter__(self):
+                return ItClose()
+
         def sub(_r, _i, **_a):
             if kind.startswith("agen"):
                 return agen()
+            if kind == "iterable_fresh":
+                return FreshIterable()
             return ItClose() if kind == "iter_aclose" else It()
 
         schema.subscription_type.fields["ev"].subscribe = sub
@@ -361,7 +371,13 @@ def judge_sub(obs, idx, stop, res, c):
     started = sum(1 for w, _k in obs["closes"] if w == "started")
     closed = sum(1 for w, _k in obs["closes"] if w == "closed")
     can_close = obs["kind"] != "iter_plain"
-    if can_close and started and closed != started:
+    finished = sum(1 for w, _k in obs["closes"] if w == "finished")
+    if obs["kind"] in ("iter_aclose", "iterable_fresh"):
+        # a custom iterator that ran to exhaustion need not be closed as well; closing it twice is wrong in any case
+        bad = closed > started or closed + finished < started
+    else:
+        bad = closed != started
+    if can_close and started and bad:
         res.violation(f"{pre}:source_not_closed_exactly_once", f"{label}: started {started} closed {closed}", payload)
         return
     res.outcome((idx, stop, tuple(obs["trace"]), obs["status"]))
